@@ -87,6 +87,10 @@ class StmtMixin:
         v = self.ev(s.value, st)
         for t in s.targets:
             self.assign_stmt_target(t, v, s.value, st)
+            # proof steps attached to "right after <name> is assigned" (hints={"after:<name>": [...]})
+            if isinstance(t, ast.Name) and self.contract_stack and not self.inline_prefix:
+                for h in self.contract_stack[-1].hints.get("after:" + t.id, []):
+                    self.assume_hint(st, h)
         return [(st, None)]
 
     def st_AnnAssign(self, s, st):
@@ -153,6 +157,10 @@ class StmtMixin:
             if old is not None and isinstance(old, VOpt) and not isinstance(v, VOpt) and False:
                 v = coerce(v, old.ty)
             st.vars[target.id] = v
+            return
+        if isinstance(target, ast.Attribute) and isinstance(target.value, ast.Name) and target.value.id not in st.vars \
+                and target.value.id not in st.alias and self.contract_stack and \
+                "%s.%s" % (target.value.id, target.attr) in self.contract_stack[-1].ignore:
             return
         if isinstance(target, ast.Attribute):
             base = self.ev(target.value, st)
